@@ -946,9 +946,60 @@ impl Optimizer {
                 }
                 Self::collect_variables(map_expr, vars);
             }
-            LogicalExpression::ExistsSubquery(_) | LogicalExpression::CountSubquery(_) => {
-                // Subqueries have their own variable scope
+            LogicalExpression::ExistsSubquery(subplan)
+            | LogicalExpression::CountSubquery(subplan) => {
+                // A subquery can be correlated: it may start from, or filter on, variables
+                // of the enclosing query, so everything it mentions counts as referenced.
+                Self::collect_subplan_variables(subplan, vars);
             }
+        }
+    }
+
+    /// Collects every variable a subquery plan binds or reads.
+    fn collect_subplan_variables(op: &LogicalOperator, vars: &mut HashSet<String>) {
+        match op {
+            LogicalOperator::NodeScan(scan) => {
+                vars.insert(scan.variable.clone());
+                if let Some(input) = &scan.input {
+                    Self::collect_subplan_variables(input, vars);
+                }
+            }
+            LogicalOperator::EdgeScan(scan) => {
+                vars.insert(scan.variable.clone());
+                if let Some(input) = &scan.input {
+                    Self::collect_subplan_variables(input, vars);
+                }
+            }
+            LogicalOperator::Expand(expand) => {
+                vars.insert(expand.from_variable.clone());
+                vars.insert(expand.to_variable.clone());
+                if let Some(edge_var) = &expand.edge_variable {
+                    vars.insert(edge_var.clone());
+                }
+                Self::collect_subplan_variables(&expand.input, vars);
+            }
+            LogicalOperator::Filter(filter) => {
+                Self::collect_variables(&filter.predicate, vars);
+                Self::collect_subplan_variables(&filter.input, vars);
+            }
+            LogicalOperator::Project(proj) => {
+                for p in &proj.projections {
+                    Self::collect_variables(&p.expression, vars);
+                }
+                Self::collect_subplan_variables(&proj.input, vars);
+            }
+            LogicalOperator::Join(join) => {
+                Self::collect_subplan_variables(&join.left, vars);
+                Self::collect_subplan_variables(&join.right, vars);
+            }
+            LogicalOperator::Return(ret) => Self::collect_subplan_variables(&ret.input, vars),
+            LogicalOperator::Limit(limit) => Self::collect_subplan_variables(&limit.input, vars),
+            LogicalOperator::Skip(skip) => Self::collect_subplan_variables(&skip.input, vars),
+            LogicalOperator::Sort(sort) => Self::collect_subplan_variables(&sort.input, vars),
+            LogicalOperator::Distinct(distinct) => {
+                Self::collect_subplan_variables(&distinct.input, vars);
+            }
+            _ => {}
         }
     }
 
